@@ -22,3 +22,74 @@ pub fn class(e: &Error) -> Class {
     else if e.is_missing_value() { Class::MissingValue }
     else { Class::Other }
 }
+
+/// Capacity of reference / output buffers of the codec harnesses.
+pub const CAP: usize = 32;
+
+/// Reference encoding buffer (filled by the oracle side of a harness).
+pub struct RefBuf { pub b: [u8; CAP], pub n: usize }
+
+impl RefBuf {
+    pub fn new() -> Self { RefBuf { b: [0; CAP], n: 0 } }
+    pub fn byte(&mut self, x: u8) { self.b[self.n] = x; self.n += 1; }
+    /// preferred head (R2)
+    pub fn head(&mut self, major: u8, arg: u64) {
+        let (h, w) = vref::put_head(major, arg);
+        let mut i = 0;
+        while i < 9 { if i < w { self.b[self.n + i] = h[i]; } i += 1; }
+        self.n += w;
+    }
+    pub fn uint(&mut self, v: u64) { self.head(0, v) }
+    /// CBOR integer from a mathematical value in [-2^64, 2^64-1]
+    pub fn int(&mut self, v: i128) {
+        if v >= 0 { self.head(0, v as u64) } else { self.head(1, (-1 - v) as u64) }
+    }
+    pub fn raw(&mut self, x: &[u8]) {
+        let mut i = 0;
+        while i < x.len() { self.b[self.n + i] = x[i]; i += 1; }
+        self.n += x.len();
+    }
+    pub fn be32(&mut self, x: u32) { self.raw(&x.to_be_bytes()) }
+    pub fn be64(&mut self, x: u64) { self.raw(&x.to_be_bytes()) }
+}
+
+/// Loop-free equality of two CAP-byte buffers.
+pub fn eq_cap(a: &[u8; CAP], b: &[u8; CAP]) -> bool {
+    let a0 = u128::from_le_bytes(a[0..16].try_into().unwrap());
+    let a1 = u128::from_le_bytes(a[16..32].try_into().unwrap());
+    let b0 = u128::from_le_bytes(b[0..16].try_into().unwrap());
+    let b1 = u128::from_le_bytes(b[16..32].try_into().unwrap());
+    a0 == b0 && a1 == b1
+}
+
+/// Encode `v` into a zeroed CAP-byte array cursor; returns (bytes, position, ok?).
+pub fn enc_cap<T: minicbor::Encode<()>>(v: &T) -> ([u8; CAP], usize, bool) {
+    let mut e = minicbor::Encoder::new(minicbor::encode::write::Cursor::new([0u8; CAP]));
+    let ok = e.encode(v).is_ok();
+    let c = e.into_writer();
+    let p = c.position();
+    (c.into_inner(), p, ok)
+}
+
+/// Stub for `Decoder::skip` in harnesses whose inputs never make the code under test skip an
+/// item: reaching it is reported (assertion), never silently pruned.
+pub fn skip_unreachable<'b: 'b>(_d: &mut minicbor::Decoder<'b>) -> Result<(), Error> {
+    assert!(false, "model domain: Decoder::skip reached in a harness that stubs it as unreachable");
+    kani::assume(false);
+    loop {}
+}
+
+/// R3 model of `Decoder::skip` (C06 is what proves skip == R3 on its domain): at most 3 heads,
+/// nesting depth 2.  Leaving that domain is an assertion failure, not a pruned path.
+pub fn skip_r3_small<'b: 'b>(d: &mut minicbor::Decoder<'b>) -> Result<(), Error> {
+    match vref::wellformed::<2>(d.input(), d.position(), 3) {
+        vref::Wf::Ok { end, .. } => { d.set_position(end); Ok(()) }
+        vref::Wf::Trunc => Err(Error::end_of_input()),
+        vref::Wf::Bad => Err(Error::message("ill-formed item")),
+        vref::Wf::Bound => {
+            assert!(false, "model domain: skip model bound exceeded");
+            kani::assume(false);
+            loop {}
+        }
+    }
+}
